@@ -265,6 +265,8 @@ type BootstrapOpts struct {
 	Now                    time.Time
 	RootCN, SignCN         string
 	RootSerial, SignSerial int64
+	// RootSerialBig and SignSerialBig, when set, take precedence (serials beyond 64 bits).
+	RootSerialBig, SignSerialBig *big.Int
 }
 
 // DefaultBootstrap returns the CLI defaults at time now.
@@ -278,8 +280,15 @@ func (w *World) Bootstrap(o BootstrapOpts, f Flags, wrap func(*Session)) error {
 		if w.KMS != nil {
 			ctx = gcpkms.NewBootstrapContext(ctx, &gcpkms.BootstrapContext{RootKeyID: "root-key", SigningKeyID: "signing-key", SigningKeyOperators: []string{"operator@example.invalid"}})
 		}
+		rs, ss := big.NewInt(o.RootSerial), big.NewInt(o.SignSerial)
+		if o.RootSerialBig != nil {
+			rs = new(big.Int).Set(o.RootSerialBig)
+		}
+		if o.SignSerialBig != nil {
+			ss = new(big.Int).Set(o.SignSerialBig)
+		}
 		return rotate.NewBootstrapContext(ctx, &rotate.BootstrapContext{RootKeyCommonName: o.RootCN, SigningKeyCommonName: o.SignCN,
-			RootKeySerial: big.NewInt(o.RootSerial), SigningKeySerial: big.NewInt(o.SignSerial), Now: o.Now})
+			RootKeySerial: rs, SigningKeySerial: ss, Now: o.Now})
 	})
 	if err != nil {
 		return err
@@ -295,6 +304,8 @@ type RotateOpts struct {
 	Now    time.Time
 	CN     string
 	Serial int64
+	// SerialBig, when set, is the override (serials beyond 64 bits).
+	SerialBig *big.Int
 }
 
 // Rotate runs rotate.Key the way the CLI's rotate command does.
@@ -315,7 +326,9 @@ func (w *World) Rotate(o RotateOpts, f Flags, wrap func(*Session)) (string, erro
 	if wrap != nil {
 		wrap(s)
 	}
-	if o.Serial == 0 {
+	if o.SerialBig != nil {
+		skc.SigningKeySerial = new(big.Int).Set(o.SerialBig)
+	} else if o.Serial == 0 {
 		skc.SigningKeySerial, err = sops.NextSigningKeySerial(s.Ctx)
 		if err != nil {
 			return "", err
